@@ -243,6 +243,37 @@ def shard_enum(shard, nshards, stride, offset):
     return run
 
 
+STR_POOL = ["", "a", "b", "ab", "ba", "aba", "abab", "bab", "7", "07", "12", "-3", "a1"]
+STR_INTS = [-1, 0, 1, 2, 3, 5, 12, -7]
+
+
+def string_terms():
+    """Every string operator applied to constants of a small pool, and to the pool plus one symbol."""
+    from vf.bp import STRING, INT, sym, const, app
+    S = [const(STRING, v) for v in STR_POOL]
+    I = [const(INT, v) for v in STR_INTS]
+    SX = S + [sym("u", STRING)]
+    IX = I + [sym("i", INT)]
+    sigs = [("STR_LENGTH", (SX,)), ("STR_TO_INT", (SX,)), ("INT_TO_STR", (IX,)),
+            ("STR_CONCAT", (SX, SX)), ("STR_CONTAINS", (SX, SX)), ("STR_PREFIXOF", (SX, SX)), ("STR_SUFFIXOF", (SX, SX)),
+            ("STR_CHARAT", (SX, IX)), ("STR_INDEXOF", (SX, S, IX)), ("STR_REPLACE", (SX, S, SX)),
+            ("STR_SUBSTR", (SX, IX, IX))]
+    for op, pools in sigs:
+        for args in itertools.product(*pools):
+            yield app(op, *args)
+
+
+def shard_strings(shard, nshards):
+    run = Run(PID)
+    for idx, t in enumerate(string_terms()):
+        if idx % nshards != shard:
+            continue
+        interps = [{"u": a, "i": b} for a in ("", "ab", "b7") for b in (0, 1, -1)] if reffv(t) else [{}]
+        judge(run, t, interps, {}, "enumerated-strings")
+        run.cls("enumerated-string-term")
+    return run
+
+
 def main():
     chk = Check(PID, "exploration", RULE, assumptions=[
         "reference evaluator vf/refsem.py transcribes SMT-LIB 2.6 theory semantics",
@@ -263,7 +294,11 @@ def main():
     stride = 1 if thorough else 6
     for sh in range(16):
         jobs.append((shard_enum, dict(shard=sh, nshards=16, stride=stride, offset=chk.seed)))
+    for sh in range(4):
+        jobs.append((shard_strings, dict(shard=sh, nshards=4)))
     chk.add(run_shards(jobs))
+    chk.exhaustive.append("every string operator over a pool of %d string and %d integer constants (plus one symbol per position)"
+                          % (len(STR_POOL), len(STR_INTS)))
     chk.exhaustive.append("every BV operator x constant/symbol operands, widths 1..%d" % wmax)
     if stride == 1:
         chk.exhaustive.append("every term with one or two operators over Bool / Int / Real / BV1 / BV2 leaves (vf/enumterms.py), "
@@ -271,6 +306,7 @@ def main():
     else:
         chk.notes["enumerated_terms"] = "1/%d of the two-operator terms (slice chosen by VERIF_SEED); the thorough tier takes all" % stride
     chk.floor("rewrite-fired", 500)
+    chk.floor("enumerated-string-term", 2000)
     for o in ("FORALL", "ARRAY_STORE", "STR_SUBSTR", "DIV", "BV_SDIV", "FUNCTION", "ITE"):
         chk.floor("op:" + o, 20)
     return chk.finish()
